@@ -240,6 +240,21 @@ def InfL.evolveWith (sx sy : Int → Where) (t : Rat) (L : InfL) : InfL :=
   { L2 with center := c, t := t,
             sub := (c.1 - pixel c.1 L.delta.1 * L.delta.1, c.2 - pixel c.2 L.delta.2 * L.delta.2) }
 
+/-- the arguments of the read-out call of the interpolating infinite layer,
+`affine_transform(ps, np.array([1, 1]), (-sub_delta / self.input_grid.delta)[::-1], mode='nearest', order=5)`:
+the diagonal of the transform, the offset in (row, column) = (y, x) order and in pixels of each axis, the spline order
+and the boundary mode -/
+structure InterpReq where
+  matrix : V2
+  offset : V2
+  order : Nat
+  nearest : Bool
+deriving DecidableEq, Repr
+
+/-- the request `evolve_until` makes after the extrusions (when `use_interpolation`) -/
+def InfL.interpRequest (L : InfL) : InterpReq :=
+  { matrix := (1, 1), offset := (-L.sub.2 / L.delta.2, -L.sub.1 / L.delta.1), order := 5, nearest := true }
+
 /-- `evolve_until(t)`; `none` = `ValueError('Backwards temporal evolution is not allowed.')` -/
 def InfL.evolve (t : Rat) (L : InfL) : Option InfL :=
   if t < L.t then none else some (L.evolveWith sideX sideY t)
